@@ -17,10 +17,10 @@ type env struct {
 	alias  string  // table alias (lower), "" none
 	row    []Value // current row of t
 	args   []Value
-	insert []Value   // the row that would have been inserted (VALUES(col))
-	now    *Value    // statement time, evaluated lazily
-	ci     bool      // case-insensitive string comparison (information_schema)
-	argErr *error    // set when a parameter marker has no argument
+	insert []Value // the row that would have been inserted (VALUES(col))
+	now    *Value  // statement time, evaluated lazily
+	ci     bool    // case-insensitive string comparison (information_schema)
+	argErr *error  // set when a parameter marker has no argument
 	srv    *Server
 }
 
